@@ -104,6 +104,15 @@ Theorem c31_sample_is_run_from_partition_head : forall is_head is_tail unmarshal
 Proof. exact emitted_run. Qed.
 Print Assumptions c31_sample_is_run_from_partition_head.
 
+(* Over every history: within one emitted sample no pushed packet occurs twice
+   (the full clause "no packet contributes to two samples" is refuted below) *)
+Theorem c31_packet_once_within_sample : forall is_head is_tail unmarshal c ops x,
+  history_ok ops ->
+  In x (snd (run is_head is_tail unmarshal c ops)) ->
+  NoDup (map p_id (s_pkts x)).
+Proof. exact emitted_distinct. Qed.
+Print Assumptions c31_packet_once_within_sample.
+
 (* The timestamp part, over every history that raises no model fault: the
    sample's PacketTimestamp is its head packet's; all packets but the last
    carry that timestamp and are not partition tails, and the last carries it
